@@ -1,10 +1,159 @@
 import CoxeterVerif.Driver.Proto
+import CoxeterVerif.Model.Structure
+import CoxeterVerif.Spec.Structure
 
 namespace OpsC07
+open Struct
+
+/-- length-prefixed list of naturals (a face / simplex / neighbour row / label row) -/
+def rdFace (c : Ctx) : Rd (List Nat) := Rd.list c (Rd.nat c)
+def rdFaces (c : Ctx) : Rd (List (List Nat)) := Rd.list c (rdFace c)
+def rdVerts {α} [Codec α] (c : Ctx) : Rd (List (V3 α)) := Rd.list c (Rd.v3 c)
+def rdEqn {α} [Codec α] (c : Ctx) : Rd (Eqn α) := do
+  let n ← Rd.v3 c; let d ← Rd.sc c; pure (n, d)
+def rdM3 {α} [Codec α] (c : Ctx) : Rd (M3 α) := do
+  let a ← Rd.sc c; let b ← Rd.sc c; let d ← Rd.sc c
+  let e ← Rd.sc c; let f ← Rd.sc c; let g ← Rd.sc c
+  let h ← Rd.sc c; let i ← Rd.sc c; let j ← Rd.sc c
+  pure ⟨a, b, d, e, f, g, h, i, j⟩
+def rdBool (c : Ctx) : Rd Bool := do let v ← Rd.nat c; pure (v != 0)
+
+/-- a list of index lists as `i<count> (i<len> i.. )*` -/
+def outFaces (F : List (List Nat)) : String :=
+  " ".intercalate (s!"i{F.length}" :: F.map fun f =>
+    " ".intercalate (s!"i{f.length}" :: f.map fun k => s!"i{k}"))
+def outEdges (E : List (Nat × Nat)) : String :=
+  " ".intercalate (s!"i{E.length}" :: E.map fun e => s!"i{e.1} i{e.2}")
+def outEqns {α} [Codec α] (E : List (Eqn α)) : String :=
+  " ".intercalate (s!"i{E.length}" :: E.map fun e => s!"{Out.v3 e.1} {Out.sc e.2}")
 
 /-- driver ops of C07. `none` = unknown op. -/
 def run (α : Type) [Scalar α] [Codec α] (op : String) (c : Ctx) : Option (Rd String) :=
   match op with
+  | "st.neighbors" => some do
+      -- in: faces ; out: neighbour lists, intersections (i j a b)* | E:AssertionError
+      let F ← rdFaces c
+      match findNeighbors F, faceIntersections F with
+      | .ok N, .ok P =>
+          pure (outFaces N ++ " " ++ " ".intercalate (s!"i{P.length}" :: P.map fun p =>
+            s!"i{p.1} i{p.2.1} i{p.2.2.1} i{p.2.2.2}"))
+      | .error e, _ => pure s!"E:{e}"
+      | _, .error e => pure s!"E:{e}"
+  | "st.edges" => some do
+      -- in: faces, V ; out: edges, len(edges), V+F-2
+      let F ← rdFaces c
+      let nv ← Rd.nat c
+      pure s!"{outEdges (edges F)} i{numEdges F} i{numEdgesConvex nv F.length}"
+  | "st.edge_vectors" => some do
+      -- in: verts, faces ; out: n, vectors (3 each), lengths
+      let V : List (V3 α) ← rdVerts c
+      let F ← rdFaces c
+      let ev := edgeVectors V F
+      pure (" ".intercalate (s!"i{ev.length}" :: (ev.map Out.v3 ++ (edgeLengths V F).map Out.sc)))
+  | "st.combine" => some do
+      -- in: equations, simplices, tol ; out: faces, groups, equations
+      let E : List (Eqn α) ← Rd.list c (rdEqn c)
+      let S ← rdFaces c
+      let tol : α ← Rd.sc c
+      let r := combineSimplices E S tol
+      pure s!"{outFaces r.1} {outFaces r.2.2} {outEqns r.2.1}"
+  | "st.sort_simplices" => some do
+      -- in: verts, start simplices, hull neighbours ; out: simplices
+      let V : List (V3 α) ← rdVerts c
+      let S ← rdFaces c
+      let N ← rdFaces c
+      pure (outFaces (sortSimplices V S N))
+  | "st.propagate" => some do
+      -- in: faces, neighbours ; out: faces after the traversal, visited list, b<stack empty>
+      let F ← rdFaces c
+      let N ← rdFaces c
+      let st := propagate N F
+      pure s!"{outFaces st.faces} {outFaces [st.visited]} {Out.bool st.stack.isEmpty}"
+  | "st.cp_sort_face" => some do
+      -- in: verts, face, R, normal, tol ; out: sorted face, b<kabsch contract>
+      let V : List (V3 α) ← rdVerts c
+      let f ← rdFace c
+      let R : M3 α ← rdM3 c
+      let n : V3 α ← Rd.v3 c
+      let tol : α ← Rd.sc c
+      pure s!"{outFaces [cpSortFace V f R]} {Out.bool (kabschContract n R tol)}"
+  | "st.equations" => some do
+      -- in: verts, faces ; out: equations
+      let V : List (V3 α) ← rdVerts c
+      let F ← rdFaces c
+      pure (outEqns (findEquations V F))
+  | "st.dihedral" => some do
+      -- in: neighbours, normals, a, b ; out: angle | E:ValueError
+      let N ← rdFaces c
+      let ns : List (V3 α) ← rdVerts c
+      let a ← Rd.nat c
+      let b ← Rd.nat c
+      match getDihedral N ns a b with
+      | .ok x => pure (Out.sc x)
+      | .error e => pure s!"E:{e}"
+  | "st.poly_sort_faces" => some do
+      -- in: faces_are_convex, verts, faces, Rs, convex flags ; out: faces, equations, neighbours | E:kind
+      let fc ← rdBool c
+      let V : List (V3 α) ← rdVerts c
+      let F ← rdFaces c
+      let Rs : List (M3 α) ← Rd.list c (rdM3 c)
+      let cv ← Rd.list c (rdBool c)
+      match polySortFaces fc V F Rs cv with
+      | .ok r => pure s!"{outFaces r.1} {outEqns r.2.1} {outFaces r.2.2}"
+      | .error e => pure s!"E:{e}"
+  | "st.poly_reorder_face" => some do
+      -- in: verts, face, R, convex ; out: face | E:kind
+      let V : List (V3 α) ← rdVerts c
+      let f ← rdFace c
+      let R : M3 α ← rdM3 c
+      let cv ← rdBool c
+      match polyReorderFace V f R cv with
+      | .ok r => pure (outFaces [r])
+      | .error e => pure s!"E:{e}"
+  | "st.face_area" => some do
+      -- in: vertices of one face (cycle), normal ; out: Poly2.area (C04 model)
+      let vs : List (V3 α) ← rdVerts c
+      let n : V3 α ← Rd.v3 c
+      pure (Out.sc (Poly2.area vs n))
+  | "st.merge_graph" => some do
+      -- in: equations, neighbours, atol, rtol, labels, faces ; out: graph edges, b<labels contract>, merged faces
+      let E : List (Eqn α) ← Rd.list c (rdEqn c)
+      let N ← rdFaces c
+      let atol : α ← Rd.sc c
+      let rtol : α ← Rd.sc c
+      let labels ← rdFace c
+      let F ← rdFaces c
+      let g := mergeGraph E N atol rtol
+      pure s!"{outEdges g} {Out.bool (labelsContract F.length g labels)} {outFaces (mergedFaces F labels)}"
+  | "st.merge_faces" => some do
+      -- in: convex flag, verts, faces, equations, neighbours, atol, rtol, labels, order, Rs, convex flags
+      let fc ← rdBool c
+      let V : List (V3 α) ← rdVerts c
+      let F ← rdFaces c
+      let E : List (Eqn α) ← Rd.list c (rdEqn c)
+      let N ← rdFaces c
+      let atol : α ← Rd.sc c
+      let rtol : α ← Rd.sc c
+      let labels ← rdFace c
+      let order ← rdFaces c
+      let Rs : List (M3 α) ← Rd.list c (rdM3 c)
+      let cv ← Rd.list c (rdBool c)
+      match mergeFaces fc V F E N atol rtol labels order Rs cv with
+      | .ok r => pure s!"{outFaces r.1} {outEqns r.2.1} {outFaces r.2.2}"
+      | .error e => pure s!"E:{e}"
+  | "spec.facet" => some do
+      -- in: verts, face ; out: b<supporting facet> b<convex ccw cycle> vector area(3)   (exact with Q)
+      let V : List (V3 α) ← rdVerts c
+      let f ← rdFace c
+      pure s!"{Out.bool (StructSpec.isSupportingFacet V f)} {Out.bool (StructSpec.cycleConvexCcw V f)} {Out.v3 (StructSpec.vectorArea V f)}"
+  | "spec.closed_oriented" => some do
+      -- in: faces ; out: b<no directed edge twice> b<every directed edge has its reverse> b<no loops>
+      let F ← rdFaces c
+      let D := StructSpec.allDir F
+      let nd := (Struct.dedup D).length == D.length
+      let rv := D.all fun e => D.contains (e.2, e.1)
+      let nl := D.all fun e => e.1 != e.2
+      pure s!"{Out.bool nd} {Out.bool rv} {Out.bool nl}"
   | _ => none
 
 end OpsC07
